@@ -169,7 +169,7 @@ def sys_configs(tier: str) -> list:
     ]
     by = bystander_configs(tier)
     if tier == "quick":
-        mc = [c for c in all_model_configs() if c["nt"] <= 2]
+        mc = _thin([c for c in all_model_configs() if c["nt"] <= 2], 1)
         pool = quick + by + mc
     else:
         pool = quick + by + extra + all_model_configs() + beyond_bound_configs()
@@ -182,8 +182,21 @@ def sys_configs(tier: str) -> list:
     return out
 
 
+def _thin(cfgs: list, phase: int) -> list:
+    """Quick tier: of the SHARDED model configurations with a bystander (a sharded save never has a tensor backed by
+    a destination it writes) every second one; the Python layer and the syscall layer take complementary halves."""
+    n, out = 0, []
+    for c in cfgs:
+        if c["shard"] and c["other"]:
+            n += 1
+            if n % 2 != phase:
+                continue
+        out.append(c)
+    return out
+
+
 def py_configs(tier: str) -> list:
-    cfgs = all_model_configs()
+    cfgs = all_model_configs() if tier == "thorough" else _thin(all_model_configs(), 0)
     extra = [_cfg(3, 1, "file", (1, 3)), _cfg(3, 2, "symlink", (2,), par=True), _cfg(3, 2, "file", (1, 2, 3)),
              _cfg(2, 1, "file", (1, 2), shard=True, lim=2), _cfg(3, 2, "file", (1, 2, 3), shard=True, lim=3),
              _cfg(3, 1, "file", (1, 2, 3), shard=True, lim=2, pre=(2,))]
@@ -357,8 +370,42 @@ def model_check(ctx) -> dict:
         allowed.setdefault((ck, pos), set()).add(
             (tuple(o["files"]), o["tdir"], o["tfile"]["k"], o["out"], tuple(o["invalid"]))
         )
-    p2 = os.path.join(SPEC_DIR, "AtomicSaveMC_f2.cfg")    # 2 faults (fault during clean-up), with action coverage
-    r2 = ctx.tlc(MC, p2, tag="mc-f2", timeout=900, coverage=True, heap="3g")
+    ctx.extra["model_terminal_states"] = nterm
+    ctx.extra["model_fault_positions"] = len(allowed)
+    ctx.extra["constants"] = {"MaxT": 3, "MaxC": 2, "MaxFaults": [1, 2], "configurations": len(all_model_configs()),
+                              "sharded_limits": "1..nt tensors' worth of bytes (incl. one shard = plain name)",
+                              "bystanders": "other in {{}, {nt}}"}
+    return allowed
+
+
+class _Background:
+    """The 2-fault model check (with action coverage) runs while the real code is being driven."""
+
+    def __init__(self, ctx):
+        import threading
+
+        self.ctx, self.res, self.err = ctx, None, None
+        self.thread = threading.Thread(target=self._run, daemon=True)
+        self.thread.start()
+
+    def _run(self):
+        try:
+            p2 = os.path.join(SPEC_DIR, "AtomicSaveMC_f2.cfg")    # 2 faults (fault during clean-up), with action coverage
+            self.res = self.ctx.tlc(MC, p2, tag="mc-f2", timeout=900, coverage=True, heap="3g", count=False,
+                                    workers=max(2, NCPU // 2))
+        except BaseException as e:  # noqa: BLE001
+            self.err = e
+
+    def finish(self):
+        self.thread.join()
+        if self.err is not None:
+            raise MachineryError(f"AtomicSaveMC (2 faults) could not be run: {self.err!r}")
+        model_check_f2(self.ctx, self.res)
+
+
+def model_check_f2(ctx, r2) -> None:
+    ctx.states += r2.distinct
+    ctx.transitions += r2.generated
     if not r2.ok:
         raise MachineryError(f"AtomicSaveMC (2 faults) failed: violated={r2.violated} errors={r2.errors[:2]}\n{r2.tail(25)}")
     cov = {k.split("!")[1]: v[0] for k, v in r2.coverage.items() if k.split("!")[1].startswith("S_")}
@@ -366,12 +413,6 @@ def model_check(ctx) -> dict:
     if not cov or never:
         raise MachineryError(f"AtomicSave actions never taken in the bounded model: {never or 'no coverage parsed'}")
     ctx.extra["tlc_action_coverage"] = cov
-    ctx.extra["model_terminal_states"] = nterm
-    ctx.extra["model_fault_positions"] = len(allowed)
-    ctx.extra["constants"] = {"MaxT": 3, "MaxC": 2, "MaxFaults": [1, 2], "configurations": len(all_model_configs()),
-                              "sharded_limits": "1..nt tensors' worth of bytes (incl. one shard = plain name)",
-                              "bystanders": "other in {{}, {nt}}"}
-    return allowed
 
 
 def validate(ctx, traces: list, tag: str) -> dict:
@@ -557,6 +598,7 @@ def run(ctx):
         "excuses the leftover it causes (weaker reading)",
     ]
     t0 = time.time()
+    f2 = _Background(ctx)
     allowed = model_check(ctx)
     t_mc = time.time() - t0
     base = os.path.join(ctx.scratch, "runs")
@@ -628,7 +670,10 @@ def run(ctx):
             ctx.extra["sys_exec_mode_runs"] = len(xruns) + len(x0)
             judge(ctx, x0 + xruns, "sysx", allowed)
     ctx.extra["wall_sys_s"] = round(time.time() - t0, 1)
+    t0 = time.time()
+    f2.finish()
     ctx.extra["wall_tlc_mc_s"] = round(t_mc, 1)
+    ctx.extra["wall_waiting_for_mc_f2_s"] = round(time.time() - t0, 1)
 
     ex = ctx.extra.pop("_exercised", set())
     missing = sorted(k for k in allowed if k not in ex)
